@@ -129,11 +129,22 @@ fn body_push_push_reader(cap: u32, cols: u32) {
 
 /// B2: prefill up to just before a bucket boundary, then push ∥ extend(5) ∥ snapshot reader.
 fn body_boundary(prefill: u32, ext: u32, over_report: bool) {
+    body_boundary_(prefill, ext, over_report, false)
+}
+
+fn body_boundary_(prefill: u32, ext: u32, over_report: bool, prefill_by_push: bool) {
     verif_loom::reset();
     EXECUTIONS.fetch_add(1, O::Relaxed);
     let cols = 1;
     let v: Arc<V> = Arc::new(V::with_capacity(1, cols));
-    v.extend((0..prefill).map(|i| 1000 + i as u64).collect::<Vec<_>>().into_iter(), fill);
+    if prefill_by_push {
+        // (a batch prefill ending at index 28 would itself allocate the next bucket eagerly)
+        for i in 0..prefill {
+            v.push(1000 + i as u64, fill);
+        }
+    } else {
+        v.extend((0..prefill).map(|i| 1000 + i as u64).collect::<Vec<_>>().into_iter(), fill);
+    }
     let t1 = {
         let v = v.clone();
         loom::thread::spawn(move || {
@@ -265,6 +276,9 @@ fn run_body(name: &str) {
         "push-push-reader-cap0-2cols" => body_push_push_reader(0, 2),
         "push-push-reader-cap40" => body_push_push_reader(40, 1),
         "boundary-push-extend5-snapshot" => body_boundary(27, 5, false),
+        // prefill 28: the push that gets index 28 allocates bucket 1 eagerly, the batch crosses
+        // into that bucket (allocated by the other thread) at index 32
+        "boundary28-push-extend5-snapshot" => body_boundary_(28, 5, false, true),
         "boundary-push-extend-overreport-snapshot" => body_boundary(27, 4, true),
         "boundary-push-extend2-snapshot@30" => body_boundary(30, 2, false),
         "two-extends-same-bucket" => body_two_extends(27, 6),
@@ -277,6 +291,7 @@ const BODIES_QUICK: &[(&str, Option<usize>)] = &[
     ("push-push-reader", Some(3)),
     ("push-push-reader-cap0-2cols", Some(3)),
     ("boundary-push-extend5-snapshot", Some(3)),
+    ("boundary28-push-extend5-snapshot", Some(3)),
     ("boundary-push-extend-overreport-snapshot", Some(3)),
     ("two-extends-small", None),
     ("two-extends-same-bucket", None),
@@ -287,6 +302,7 @@ const BODIES_THOROUGH: &[(&str, Option<usize>)] = &[
     ("push-push-reader-cap40", Some(4)),
     ("boundary-push-extend2-snapshot@30", Some(4)),
     ("boundary-push-extend5-snapshot", Some(4)),
+    ("boundary28-push-extend5-snapshot", Some(4)),
     ("boundary-push-extend-overreport-snapshot", Some(4)),
     ("two-extends-small", None),
     ("two-extends-same-bucket", None),
